@@ -520,6 +520,45 @@ theorem incr_accumulates_any_state (s : Mem) (hc : 0 < s.cap) (k : Key) (a b : I
 example : ((Mem.init 1).run [.set 0 (.tok 7) none .always, .incr 1 5 (some 8), .incr 1 (-4) (some 8), .adv 8, .get 1, .incr 0 1 none]).2
     = [.bool true, .int 5, .int 1, .unit, .val none, .int 1] := by decide
 
+
+/-- **Only-if-absent succeeds exactly when a read would miss**, in every state (an
+expired-unpurged entry counts as absent). -/
+theorem set_nx_answers_absence (s : Mem) (k : Key) (v : Val) (ttl : Option Nat) :
+    (s.step (.set k v ttl .nx)).2 = .bool (!(s.rawGet k).2.isSome) := by
+  simp only [Mem.step]
+  cases h : (s.rawGet k).2 <;> simp
+
+/-- **Only-if-present succeeds exactly when a read would hit**, in every state. -/
+theorem set_xx_answers_presence (s : Mem) (k : Key) (v : Val) (ttl : Option Nat) :
+    (s.step (.set k v ttl .xx)).2 = .bool (s.rawGet k).2.isSome := by
+  simp only [Mem.step]
+  cases h : (s.rawGet k).2 <;> simp
+
+/-- **A refused conditional write changes nothing a reader can see**: the key reads as before. -/
+theorem refused_set_keeps_value (s : Mem) (k : Key) (v : Val) (ttl : Option Nat) (c : Cond)
+    (h : (s.step (.set k v ttl c)).2 = .bool false) :
+    ((s.step (.set k v ttl c)).1.step (.get k)).2 = (s.step (.get k)).2 := by
+  cases c with
+  | always => simp [Mem.step] at h
+  | nx =>
+    simp only [Mem.step] at h ⊢
+    cases hr : (s.rawGet k).2 with
+    | none => simp [hr] at h
+    | some w =>
+      simp only [Option.isSome_some, if_true]
+      have := get_repeatable s k
+      simp only [Mem.step] at this
+      rw [hr] at this; injection this with this; rw [this]
+  | xx =>
+    simp only [Mem.step] at h ⊢
+    cases hr : (s.rawGet k).2 with
+    | some w => simp [hr] at h
+    | none =>
+      simp only [Option.isSome_none]
+      have := get_repeatable s k
+      simp only [Mem.step] at this
+      rw [hr] at this; injection this with this; simp [this]
+
 end AnyState
 
 end CashewsVerif.Props.C01
